@@ -14,7 +14,7 @@ import (
 	"time"
 )
 
-const MaxTasks = 16
+const MaxTasks = 64
 
 // SwitchEntry is one scheduling decision: run Task until it has executed
 // Quantum yield steps, or (Site != 0) until its Nth hit of Site, whichever
